@@ -183,6 +183,15 @@ func (br *bodyRun) step(st *State, ins ssa.Instruction, b *ssa.BasicBlock, idx i
 	case *ssa.Select:
 		fc.note("select at %s: results unconstrained", fc.posStr(x.Pos()))
 		fc.vals[x] = fc.freshTyped(st, x.Type(), "select")
+		if tup, ok := fc.vals[x].(TupleV); ok && len(tup) > 0 {
+			// the index of the case that fired (-1: default case of a non-blocking select)
+			i := tup[0].(Scalar).T
+			lo := int64(0)
+			if !x.Blocking {
+				lo = -1
+			}
+			fc.assume(st, and(app("bvsle", bvlit(uint64(lo), 64), i), app("bvslt", i, bvlit(uint64(len(x.States)), 64))))
+		}
 	case *ssa.Range, *ssa.Next:
 		br.rangeNext(st, ins)
 	case *ssa.SliceToArrayPointer:
@@ -614,6 +623,28 @@ func (br *bodyRun) typeAssert(st *State, x *ssa.TypeAssert) Val {
 	return v
 }
 
+// Range over a map: each step either ends the iteration or yields some key that is present in
+// the map at that moment, with the value stored under it. Nothing is said about the order or
+// about every key being visited (a sound abstraction of Go's map iteration).
 func (br *bodyRun) rangeNext(st *State, ins ssa.Instruction) {
-	unsup("range over map or string (%s)", ins)
+	fc := br.fc
+	switch x := ins.(type) {
+	case *ssa.Range:
+		if _, ok := x.X.Type().Underlying().(*types.Map); !ok {
+			unsup("range over string (%s)", ins)
+		}
+		fc.vals[x] = fc.val(x.X)
+	case *ssa.Next:
+		rg, ok := x.Iter.(*ssa.Range)
+		if !ok || x.IsString {
+			unsup("range over string (%s)", ins)
+		}
+		mt := rg.X.Type().Underlying().(*types.Map)
+		m := fc.val(rg.X).(Scalar).T
+		okT := fc.smt.declare("rngok", "Bool")
+		k := fc.freshTyped(st, mt.Key(), "rngkey")
+		present, v := fc.mapLookup(st, m, mt, k)
+		fc.assume(st, implies(okT, present))
+		fc.vals[x] = TupleV{Scalar{okT}, k, v}
+	}
 }
